@@ -366,12 +366,162 @@ func c13dependent(r *vres.R) {
 	}
 }
 
+// c13twoGroups: a kind served by two API groups. A document names its object by apiVersion and
+// kind, or by kind alone (the cluster's preferred group for that kind): what a document addresses
+// does not depend on the documents before it, in the same stream or in an earlier stream given to
+// the same patcher. Differential oracle: the group a bare kind resolves to is taken from a
+// one-document stream on a fresh patcher.
+func c13twoGroups(r *vres.R) {
+	gvrOf := map[string]schema.GroupVersionResource{
+		"alpha": {Group: "alpha.example.com", Version: "v1", Resource: "widgets"},
+		"beta":  {Group: "beta.example.com", Version: "v1", Resource: "widgets"},
+	}
+	doc := func(op, group, tag string) string {
+		av := ""
+		if group != "bare" {
+			av = `"apiVersion":"` + group + `.example.com/v1",`
+		}
+		if op == "delete" {
+			return `{"operation":"DeleteNonCascading",` + av + `"kind":"Widget","namespace":"default","name":"w"}`
+		}
+		return `{"operation":"MergePatch",` + av + `"kind":"Widget","namespace":"default","name":"w","mergePatch":{"spec":{"` + tag + `":"yes"}}}`
+	}
+	type step struct{ op, group string }
+	alphabet := []step{{"patch", "alpha"}, {"patch", "beta"}, {"patch", "bare"}, {"delete", "bare"}, {"delete", "beta"}}
+	run := func(seq []step, split int) (string, error) {
+		client := vfx.NewMiniCluster()
+		for g, gvr := range gvrOf {
+			o := &unstructured.Unstructured{Object: map[string]any{"apiVersion": g + ".example.com/v1", "kind": "Widget",
+				"metadata": map[string]any{"name": "w", "namespace": "default"}, "spec": map[string]any{}}}
+			if _, err := client.Dynamic().Resource(gvr).Namespace("default").Create(context.TODO(), o, metav1.CreateOptions{}); err != nil {
+				panic(err)
+			}
+		}
+		patcher := NewObjectPatcher(vfx.NewWireClient(client), log.NewNop())
+		var firstErr error
+		apply := func(part []step, base int) {
+			if len(part) == 0 {
+				return
+			}
+			var docs []string
+			for i, st := range part {
+				docs = append(docs, doc(st.op, st.group, fmt.Sprintf("s%d", base+i)))
+			}
+			ops, err := ParseOperations([]byte(strings.Join(docs, "\n")))
+			if err == nil {
+				err = patcher.ExecuteOperations(ops)
+			}
+			if err != nil && firstErr == nil {
+				firstErr = err
+			}
+		}
+		apply(seq[:split], 0)
+		apply(seq[split:], split)
+		var st []string
+		for _, g := range []string{"alpha", "beta"} {
+			o, err := client.Dynamic().Resource(gvrOf[g]).Namespace("default").Get(context.TODO(), "w", metav1.GetOptions{})
+			if err != nil {
+				st = append(st, g+"=absent")
+				continue
+			}
+			spec, _, _ := unstructured.NestedMap(o.Object, "spec")
+			var ks []string
+			for k := range spec {
+				ks = append(ks, k)
+			}
+			sort.Strings(ks)
+			st = append(st, g+"="+strings.Join(ks, "+"))
+		}
+		return strings.Join(st, " "), firstErr
+	}
+	// which group does a bare kind address
+	probe, _ := run([]step{{"patch", "bare"}}, 0)
+	bare := ""
+	switch probe {
+	case "alpha=s0 beta=":
+		bare = "alpha"
+	case "alpha= beta=s0":
+		bare = "beta"
+	default:
+		r.Violation("C13 bare-kind-resolution", "two-groups|probe", "a MergePatch without apiVersion on a kind served by two groups left the cluster as ["+probe+"]", nil)
+		return
+	}
+	for n := 2; n <= 3; n++ {
+		idx := make([]int, n)
+		for {
+			seq := make([]step, n)
+			var ids []string
+			for i, v := range idx {
+				seq[i] = alphabet[v]
+				ids = append(ids, alphabet[v].op+":"+alphabet[v].group)
+			}
+			for split := 0; split < n; split++ {
+				key := fmt.Sprintf("two-groups|%s|split=%d", strings.Join(ids, ","), split)
+				if !r.Want(key) {
+					continue
+				}
+				// reference: every document acts on the group it names (bare: the probed one)
+				state := map[string]map[string]bool{"alpha": {}, "beta": {}}
+				for i, st := range seq {
+					g := st.group
+					if g == "bare" {
+						g = bare
+					}
+					if state[g] == nil {
+						continue // the object is gone: the patch fails, the delete is a no-op
+					}
+					if st.op == "delete" {
+						state[g] = nil
+					} else {
+						state[g][fmt.Sprintf("s%d", i)] = true
+					}
+				}
+				var want []string
+				for _, g := range []string{"alpha", "beta"} {
+					if state[g] == nil {
+						want = append(want, g+"=absent")
+						continue
+					}
+					var ks []string
+					for k := range state[g] {
+						ks = append(ks, k)
+					}
+					sort.Strings(ks)
+					want = append(want, g+"="+strings.Join(ks, "+"))
+				}
+				got, err := run(seq, split)
+				r.Eval(1)
+				r.Transition(int64(n))
+				if got != strings.Join(want, " ") {
+					r.Violation("C13 document-applied-to-another-object", key, fmt.Sprintf("documents [%s] (second stream from document %d on): the cluster ends as [%s] (error: %v), every document applied to the object it names gives [%s] (a bare kind addresses group %s)", strings.Join(ids, ", "), split, got, err, strings.Join(want, " "), bare), nil)
+					continue
+				}
+				r.State(key)
+				r.Outcome("two-groups|"+got, true)
+			}
+			i := n - 1
+			for i >= 0 {
+				idx[i]++
+				if idx[i] < len(alphabet) {
+					break
+				}
+				idx[i] = 0
+				i--
+			}
+			if i < 0 {
+				break
+			}
+		}
+	}
+}
+
 func TestVerifC13(t *testing.T) {
 	r := vres.New("c13")
 	defer r.Finish()
 	if s, _ := vres.Shard(); s == 0 || r.Replaying() {
 		c13replace(r)
 		c13dependent(r)
+		c13twoGroups(r)
 	}
 	alpha := c13alphabet()
 	var usable []c13op
